@@ -247,18 +247,22 @@ class Ctx:
         self.case_violations.append(Violation(self.prop, kind, sig, str(detail)[:600], self.spec))
 
     @contextlib.contextmanager
-    def lib(self, label, feature=None, ok=()):
+    def lib(self, label, feature=None, ok=(), budget_calls=None):
         """Library call that must return: any exception is a `crash` violation (DESIGN 3.6).
         Exceptions of the types in `ok` are re-raised for the caller to handle."""
         nested = _Budget.active
+        old_max = _Budget.MAX_CALLS
         try:
             if not nested:
+                if budget_calls:
+                    _Budget.MAX_CALLS = budget_calls      # a block that legitimately makes many calls
                 _Budget.start()
             try:
                 yield
             finally:
                 if not nested:
                     _Budget.stop()
+                    _Budget.MAX_CALLS = old_max
         except ok:
             raise
         except (Violation, HarnessError, KeyboardInterrupt, CaseAborted):
